@@ -323,7 +323,7 @@ harness("C08.struct", jobs, sym, conc)
 # ------------------------------------------------------------------ the same operations on a lazily selected operand (relational)
 def _view_ops():
     return {"concat": lambda d: np.concatenate([d, d]), "zeros_like": lambda d: np.zeros_like(d), "padded": lambda d: (d.as_padded_matrix(fill_value=-7) if d.size else ("empty",)),
-            "nonzero": lambda d: np.nonzero(d), "where": lambda d: np.where(d > 0, d, 0), "where_xy": lambda d: np.where(mk_ragged(type(d), [True] * int(d.size), [int(x) for x in common.cells(d.shape[1])] if not common.SYMBOLIC else common.cells(d.shape[1]), "bool"), d, 0),
+            "nonzero": lambda d: np.nonzero(d), "nonzero_m": lambda d: d.nonzero(), "where": lambda d: np.where(d > 0, d, 0), "where_xy": lambda d: np.where(mk_ragged(type(d), [True] * int(d.size), [int(x) for x in common.cells(d.shape[1])] if not common.SYMBOLIC else common.cells(d.shape[1]), "bool"), d, 0),
             "rslice": lambda d: __import__("npstructures").ragged_slice(d, None, np.full(len(d), 1)), "subset": lambda d: d.subset(d > 0)}
 
 
